@@ -82,6 +82,9 @@ mod verif_in_ctx_pkt {
     ///   3 = addressed waiter second in line, its caller has dropped the operation (cancelled)
     /// `rscen`: retransmit queue. 0 = [unrelated]; 1 = [unrelated, addressed]; 2 = [addressed, unrelated]
     fn step_ack_body(ptype: u8, reason: u8, scen: u8, rscen: u8) {
+        step_ack_body_ids(ptype, reason, scen, rscen, PID, OID)
+    }
+    fn step_ack_body_ids(ptype: u8, reason: u8, scen: u8, rscen: u8, pid_c: u16, oid_c: u16) {
         let mut cx = task_cx();
         let mut tx = TxPacketStream::from(RecTx::new());
         let r: u16 = kani::any();
@@ -96,9 +99,9 @@ mod verif_in_ctx_pkt {
         // a symbolic position makes VecDeque::remove shift symbolic ranges, > 12 GB); that request
         // and acknowledgement agree on the action id exactly for equal kind and identifier is
         // decided for ALL identifiers by `action_id_agree`.
-        let pid: u16 = PID;
+        let pid: u16 = pid_c;
         // an unrelated outstanding operation: same kind, different identifier
-        let oid: u16 = OID;
+        let oid: u16 = oid_c;
         let other_type = if ptype == PINGRESP { SUBACK } else { ptype };
         let a_other = aid(other_type, oid);
         let a_this = if ptype == PINGRESP { aid(PINGRESP, 0) } else { aid(ptype, pid) };
@@ -274,6 +277,25 @@ mod verif_in_ctx_pkt {
     step_ack!(step_pkt_unsuback_cancelled, UNSUBACK, 0x00, 3, 0);
     step_ack!(step_pkt_pingresp_w1, PINGRESP, 0x00, 2, 1);
     step_ack!(step_pkt_pingresp_none, PINGRESP, 0x00, 0, 0);
+
+    macro_rules! step_ack_ids {
+        ($name:ident, $ptype:expr, $reason:expr, $scen:expr, $rscen:expr, $pid:expr, $oid:expr) => {
+            #[kani::proof]
+            #[kani::unwind(6)]
+            pub(crate) fn $name() {
+                step_ack_body_ids($ptype, $reason, $scen, $rscen, $pid, $oid);
+            }
+        };
+    }
+    //@ h name=step_pkt_puback_w2_id1 props=C05,C10,C17 tier=thorough cap=small to=1200
+    //@ h name=step_pkt_pubrec_w1_fail_idmax props=C05,C10,C17 tier=thorough cap=small to=1200
+    //@ h name=step_pkt_suback_w2_idmax props=C05,C10 tier=thorough cap=small to=1200
+    //@ claim: as step_pkt_*, at the boundary packet identifiers: the acknowledged operation carries identifier 1 (the other 0xffff) or 0xffff (the other 0x0100, same low byte as 0x0000 would have)
+    //@ bounds: as step_pkt_*, identifiers (1, 0xffff) and (0xffff, 0x0100)
+    //@ funcs: Context::handle_packet, utils::rx_action_id, utils::linear_search_by_key
+    step_ack_ids!(step_pkt_puback_w2_id1, PUBACK, 0x00, 1, 1, 0x0001, 0xffff);
+    step_ack_ids!(step_pkt_pubrec_w1_fail_idmax, PUBREC, 0x80, 2, 2, 0xffff, 0x0100);
+    step_ack_ids!(step_pkt_suback_w2_idmax, SUBACK, 0x00, 1, 1, 0xffff, 0x0100);
 
     //@ h name=step_pkt_disconnect props=C13 tier=quick cap=small to=1200
     //@ claim: one Context::handle_packet step for a server DISCONNECT: reason 0x00 is a graceful end (Ok), every other reason ends run() with MqttError::Disconnected carrying exactly that reason and the packet's session expiry interval; nothing is written, waiters, retransmit queue and quota are left as they were
